@@ -183,6 +183,19 @@ PARTS = {
         required=lambda events: [n for n in ["ban", "honest_reply", "discovered"] if n not in
                                  {("ban" if e["obs"]["bans"]["nodes"] else "") for e in events} | {e["op"]["o"] for e in events}
                                  | {("discovered" if any(x["e"] == "Discovered" for x in e["obs"]["ev"]) else "") for e in events}]),
+    "svc_table": _svc_common({"C12.Admit": "C12", "C12.OnlyBySession": "C12", "C12.ReplaceRule": "C12"},
+        spec="MC_Table.tla", mc={"quick": ["MC_Table_ip4.cfg", "MC_Table_ip6.cfg", "MC_Table_dual.cfg"], "thorough": ["MC_Table_ip4.cfg", "MC_Table_ip6.cfg", "MC_Table_dual.cfg"]},
+        sim={"quick": [dict(cfg="MC_Table_sim_ip4.cfg", num=40, depth=30), dict(cfg="MC_Table_sim_ip6.cfg", num=25, depth=30), dict(cfg="MC_Table_sim_dual.cfg", num=25, depth=30)],
+             "thorough": [dict(cfg="MC_Table_sim_ip4.cfg", num=800, depth=50), dict(cfg="MC_Table_sim_ip6.cfg", num=500, depth=50), dict(cfg="MC_Table_sim_dual.cfg", num=500, depth=50)]},
+        fixed_behaviours=[
+            [{"o": "reset", "mode": "ip4", "filter": "nomark"}, {"o": "established", "rec": "p1:1:mark", "dir": "Out"}, {"o": "established", "rec": "p2:1:mark", "dir": "In"}],
+            [{"o": "reset", "mode": "ip4", "filter": "nomark"}, {"o": "add_enr", "rec": "p1:1:v4"}, {"o": "add_enr", "rec": "p2:1:v4"}, {"o": "lookup", "target": {"xor": ["p2", 255]}},
+             {"o": "response_in", "req": "@p2", "body": {"t": "nodes", "total": 1, "recs": ["p1:2:v4", "p3:1:v4"]}}, {"o": "response_in", "req": "@p1", "body": {"t": "nodes", "total": 1, "recs": ["p2:1:both", "p2:2:mark"]}}],
+        ],
+        required=lambda events: [n for n in ["replaced", "rejected-add", "removed"] if n not in
+                                 {("rejected-add" if e["op"].get("ret", "").startswith("err") else "") for e in events}
+                                 | {("replaced" if e["op"]["o"] in ("response_in",) and i > 0 and any(r[0] in {x[0] for x in events[i - 1]["obs"]["table"]} and r[1] not in {x[1] for x in events[i - 1]["obs"]["table"]} for r in e["obs"]["table"]) else "") for i, e in enumerate(events)}
+                                 | {("removed" if i > 0 and len(e["obs"]["table"]) < len(events[i - 1]["obs"]["table"]) and e["op"]["o"] != "reset" else "") for i, e in enumerate(events)}]),
     "svc_serve": _svc_common({"C14.NoAnswer": "C14", "C14.WrongIdOrPeer": "C14", "C14.Total": "C14", "C14.TooBig": "C14", "C14.OwnRecord": "C14",
                               "C14.ForeignRecord": "C14", "C14.Missing": "C14", "C14.TooManyOrDuplicate": "C14", "C14.Pong": "C14"},
         spec="MC_Serve.tla", mc={"quick": ["MC_Serve.cfg"], "thorough": ["MC_Serve_9.cfg", "MC_Serve_17.cfg"]},
@@ -234,7 +247,7 @@ PARTS = {
         formulas={"C01.Attribution": "C01", "C01.KeyDisclosed": "C01", "C02.Delivered": "C02", "C02.MutantAccepted": "C02",
                   "C03.ReplayAccepted": "C03", "C03.NoChallenge": "C03", "C03.WrongSource": "C03", "C03.TwoHandshakes": "C03",
                   "C04.TwoOutcomes": "C04", "C04.EventAfterOutcome": "C04", "C04.NoOutcome": "C04", "C04.TimeoutUnjustified": "C04", "C04.WireBound": "C04",
-                  "C13.Count": "C13", "C13.LeftOver": "C13", "C13.ReleasedEarly": "C13", "C15.Capacity": "C15", "C15.StaleSessionUsed": "C15",
+                  "C13.Count": "C13", "C13.LeftOver": "C13", "C13.ReleasedEarly": "C13", "C12.SingleStack": "C12", "C15.Capacity": "C15", "C15.StaleSessionUsed": "C15",
                   "C19.NonceReuse": "C19", "C19.IdNonceReuse": "C19"},
         interesting=_h_interesting, required=_h_required,
         assumptions=["the real Handler::start() loop runs on a paused tokio clock over a virtual socket (hook H1); socket/recv.rs and send.rs (UDP I/O, packet filter call order) are bypassed",
@@ -288,6 +301,7 @@ PROPS = {
     "C13": dict(parts=[dict(name="handler")]),
     "C19": dict(parts=[dict(name="handler")]),
     "C11": dict(parts=[dict(name="svc_nodes")]),
+    "C12": dict(parts=[dict(name="svc_table"), dict(name="handler", mc={"quick": [], "thorough": ["MC_Handler_tiny.cfg"]})]),
     "C14": dict(parts=[dict(name="svc_serve")]),
     "C20": dict(parts=[dict(name="svc_talk")]),
     "C15": dict(parts=[dict(name="lru"), dict(name="handler", mc={"quick": [], "thorough": ["MC_Handler_time.cfg"]})]),
